@@ -177,6 +177,9 @@ class NodePathParser(object):
         elif self.current_token != '':
             raise unexpected_char_error(self.current_token[0], self.pos - len(self.current_token))
 
+        else:
+            raise PathExprParsingError('unexpected end of path expression')
+
         return self.node_path
 
     def handle_left_bracket(self):
